@@ -114,22 +114,30 @@ def check_tangent(run, items, x, K, label, conservative=None, ndir=3, rng=None, 
     worst, worst_rate = 0.0, None
     f0 = None
     judged = 0
+    # every row is judged against its own natural size: |K| |d| of that row for the direction at hand, but not less than a thousandth of
+    # the row's size for a generic direction (|K| svec: rows whose product with this particular direction nearly vanishes - a block that is
+    # structurally zero, a direction in another field - carry the round-off of their own, possibly much larger, terms) nor less than 1e-12
+    # of the largest row. One number for all rows (the largest row) would let the blocks of a mixed container or the bubble rows of a MINI
+    # cell, whose sizes differ by powers of the length unit, pass with errors of their own size (third coverage audit).
+    kgen = np.abs(Kd) @ np.abs(svec)
     for d in dirs:
         d = d / maxabs(d) * svec
-        kmax = max(maxabs(np.abs(Kd) @ np.abs(d)), 1e-300)  # natural size of the product K d (row-wise)
+        krow = np.abs(Kd) @ np.abs(d)
+        kmax = max(maxabs(krow), 1e-300)  # natural size of the product K d (largest row)
+        knat = np.maximum(np.maximum(krow, 1e-3 * kgen), 1e-12 * kmax)
         errs = []
         kink = False
         for h in (H1 * scale_x, H2 * scale_x):
             fp, fm = f_at(h, d), f_at(-h, d)
             fd = (fp - fm) / (2 * h)
-            errs.append(maxabs(fd - Kd @ d) / kmax)
+            errs.append(maxabs((fd - Kd @ d) / knat))
             if errs[-1] > FD_TOL:
                 # a kink (yield surface, contact switch, max-history switch crossed inside the stencil): one-sided
                 # differences disagree by O(1) instead of O(h) -> the point is outside the quantifier (DESIGN 3.5-2)
                 if f0 is None:
                     f0 = f_at(0.0, d)
-                one_sided = maxabs((fp - f0) / h - (f0 - fm) / h) / kmax
-                if one_sided > 50 * h * max(1.0, maxabs(Kd @ d) / kmax) and one_sided > 0.2 * errs[-1]:
+                one_sided = maxabs(((fp - f0) / h - (f0 - fm) / h) / knat)
+                if one_sided > 50 * h and one_sided > 0.2 * errs[-1]:
                     kink = True
         if kink:
             run.skip(mon, "non-smooth point inside the finite-difference stencil (one-sided differences disagree)")
